@@ -52,3 +52,18 @@ func (e *Executor) statusOnError(t *ast.Task) error {
 	}
 	return checker.OnError(t)
 }
+
+func (e *Executor) statusOnSuccess(t *ast.Task) error {
+	method := t.Method
+	if method == "" {
+		method = e.Taskfile.Method
+	}
+	checker, err := fingerprint.NewSourcesChecker(method, e.TempDir.Fingerprint, e.Dry)
+	if err != nil {
+		return err
+	}
+	if recorder, ok := checker.(fingerprint.SuccessRecorder); ok {
+		return recorder.OnSuccess(t)
+	}
+	return nil
+}
